@@ -160,6 +160,9 @@ fn examine(h: &History, r: &mut Restarted, allowed: &BTreeSet<usize>, rep: &mut 
     };
     // distinct observed restart results: (history, restarted tip, stored blocks)
     rep.distinct.insert(format!("{}:{}:{}", h.label, w.blocks[t].label, o.blocks.len()));
+    if let Some(&bad) = w.path(t).iter().find(|&&i| !w.blocks[i].valid) {
+        rep.violate(&format!("{}/restarted-on-a-chain-with-an-invalid-block", keyp), format!("restarted tip {}: its ancestor {} does not validate (the running node never adopted it)", w.blocks[t].label, w.blocks[bad].label), case.clone());
+    }
     if !allowed.contains(&t) {
         rep.violate(&format!("{}/tip-not-allowed", keyp), format!("restarted tip {} was neither the pre-crash tip, an ancestor of it, nor a block known before the crash", w.blocks[t].label), case.clone());
     }
@@ -505,6 +508,32 @@ pub fn histories(tier: &Tier) -> Result<Vec<History>, String> {
         order.extend([tw.tb[2], tw.tb[0], tw.tb[3], tw.tb[1], tw.tb[4]]);
         let label = format!("g{}-stem8-side-branch-first-in-file-order-prune{}", g, prune);
         out.push(record(tw, order, label)?);
+    }
+    // a block on disk that was never examined: T2 (sibling of the tip T1) carries a creator
+    // signature made with another key, its child T3 arrives first (stored parentless by the loading
+    // node), then T2 itself (a side block of the tip's height: nothing is wound). The start-up
+    // loader winds that branch for the first time.
+    {
+        let mut tw = build_tree(g, 8, &[0, 0, 2], None)?;
+        let (t2, t3) = (tw.tb[1], tw.tb[2]);
+        let mut forged = decode_block(&tw.w.blocks[t2].bytes);
+        forged.sign(&key(7).private);
+        forged.generate().map_err(|e| format!("forged block: {:?}", e))?;
+        let (f2, f3) = if forged.hash == tw.w.blocks[t2].hash {
+            tw.w.blocks[t2].bytes = crate::node::block_bytes(&forged);
+            tw.w.blocks[t2].valid = false;
+            (t2, t3)
+        } else {
+            let parent = tw.w.blocks[t2].parent;
+            let child = decode_block(&tw.w.blocks[t3].bytes);
+            let child = crate::props::c04::rebase(&tw.w, &child, forged.hash);
+            let f2 = tw.w.register(forged, parent, false, "T2x".into());
+            let f3 = tw.w.register(child, Some(f2), true, "T3r".into());
+            (f2, f3)
+        };
+        let mut order: Vec<usize> = tw.stem.clone();
+        order.extend([tw.tb[0], f3, f2]);
+        out.push(record(tw, order, format!("g{}-stem8-unexamined-side-branch-with-forged-creator-signature", g))?);
     }
     Ok(out)
 }
